@@ -106,6 +106,49 @@ def c10_twin(out, tier, seed):
                           {"history_ops": cases[2 * i + 1]["ops"], "executed_without_dry": ea, "executed_after_dry": eb})
 
 
+def outofstep_history(rng):
+    """Several tasks share one node; after an edit only SOME of them get their rows renewed (the
+    others fail, are deselected, or the build stops early); then plain builds."""
+    def tk(i, **kw):
+        d = {"id": i, "module": 1, "deps": [], "prods": [110 + i], "mver": 0, "skip": False, "skipifs": [], "persist": False,
+             "prio": 0, "marks": [], "attrs": [], "after_fn": [], "after_expr": None, "use_decorator": False}
+        d.update(kw)
+        return d
+    k = rng.randint(2, 4)
+    via_producer = rng.random() < 0.5
+    shared = 105 if via_producer else 101
+    tasks = [tk(9, deps=[101], prods=[105])] if via_producer else []
+    cons = list(range(1, k + 1))
+    for i in cons:
+        tasks.append(tk(i, deps=[shared] + ([102] if rng.random() < 0.3 else []), prio=rng.choice([0, 0, 1, -1])))
+    rng.shuffle(tasks)
+    cfg = {"force": False, "dry_run": False, "max_failures": None, "expression": "", "marker_expression": "", "capture": "no"}
+    held = rng.sample(cons, rng.randint(1, k - 1))
+    how = rng.choice(["fault", "fault_after", "select", "maxfail"])
+    cfg2, faults2 = dict(cfg), {}
+    if how == "fault":
+        faults2 = {str(i): "raise_before" for i in held}
+    elif how == "fault_after":
+        faults2 = {str(i): "raise_after" for i in held}
+    elif how == "select":
+        keep = [i for i in cons if i not in held] + ([9] if via_producer else [])
+        cfg2["expression"] = " or ".join(f"t{i}_" for i in keep)
+    else:
+        faults2 = {str(held[0]): "raise_before"}
+        cfg2["max_failures"] = 1
+    ops = [{"op": "set", "n": 101, "c": rng.randint(1, 50)}, {"op": "set", "n": 102, "c": rng.randint(1, 50)},
+           {"op": "build", "tasks": tasks, "cfg": cfg, "faults": {}},
+           {"op": "set", "n": 101, "c": rng.randint(51, 99)},
+           {"op": "build", "tasks": tasks, "cfg": cfg2, "faults": faults2},
+           {"op": "build", "tasks": tasks, "cfg": cfg, "faults": {}},
+           {"op": "build", "tasks": tasks, "cfg": cfg, "faults": {}}]
+    return {"ops": ops, "sources": [101, 102]}
+
+
+for k in ("C02", "C03", "C04"):
+    OPTS[k]["templates"] = [outofstep_history]
+
+
 EXTRA = {"C01": [c01_sorter], "C10": [c10_twin]}
 
 import random as _random
